@@ -26,12 +26,13 @@ man = {
     "version": 1,
     "setup_cmd": "./setup.sh",
     "hooks": {"guard": "OPENTELEMETRY_CPP_VERIF",
-              "enable": "drivers are compiled by tools/vlib.py from /repo's working tree with -DOPENTELEMETRY_CPP_VERIF=1; no source hook exists so far (observation goes through public interfaces and a token-renamed scratch copy for the scheduler shim)",
+              "enable": "drivers are compiled by tools/vlib.py from /repo's working tree with -DOPENTELEMETRY_CPP_VERIF=1; no source hook exists in /repo (observation goes through public/protected interfaces and, for the concurrent properties, token-renamed scratch copies compiled against the scheduler shim)",
               "baseline_off_cmd": "python3 tools/baseline.py",
               "source_commits": [], "add_only": True},
     "engines": [
         {"name": "E-coq", "path": "coq/", "serves_properties": [c["property_id"] for c in checks], "kind_free_text": "Coq 8.16.1 development: models, specs, theorems; Properties_Cnn.v hold only the property theorems with Print Assumptions"},
-        {"name": "E-diff", "path": "tools/runner.py", "serves_properties": [c["property_id"] for c in checks], "kind_free_text": "correspondence: extracted model (OCaml) vs rebuilt C++ driver on generated cases; extracted SPEC run on the implementation's observations"},
+        {"name": "E-diff", "path": "tools/runner.py", "serves_properties": [c["property_id"] for c in checks if "E-sched" not in c["engine"]], "kind_free_text": "correspondence: extracted model (OCaml) vs rebuilt C++ driver on generated cases; extracted SPEC run on the implementation's observations"},
+        {"name": "E-sched", "path": "harness/sched/", "serves_properties": [c["property_id"] for c in checks if "E-sched" in c["engine"]], "kind_free_text": "correspondence on schedules: unmodified sources copied with std::atomic/thread/mutex/condition_variable/clock rewritten to a deterministic scheduler shim (tools/shimcopy.py), run under systematic and random schedules; the extracted acceptor model must accept every event trace and the extracted history SPEC is run on it"},
     ],
     "checks": checks,
     "not_applicable": na,
